@@ -304,6 +304,8 @@ def run(argv):
             d = gen_desc(rng, k)
         if k == 6:
             d["allowed"], d["required"] = [], ["D", "Si"]        # extra species that take part in no reaction, always
+            # a shielding table chosen for a species this (reduced) network does not contain: the choice is part of the project
+            d["shielding"] = {"H2": "L96Table", "N2": "L13Table"}
         if k == 7:
             d = user_binding_desc(rng, k)
             d["binding"], d["yield"] = {}, {"#CO": 2.7e-3, "#H2O": 1.3e-3}      # yields of the user's own, binding energies from the table
@@ -412,6 +414,14 @@ def process(chk, descs, ex_cases):
             got = toml_description(res_e[0]["toml"])
             want = requested_description(d)
             want["files"], want["formats"] = ["reactions.naunet"], ["naunet"]
+            if len(res_e) > 1 and "error" not in res_e[1] and not d["replacement"] and res_e[0].get("canon") and res_e[1].get("canon") \
+                    and not any(str(v).startswith("unparsed") for v in list(res_e[0]["canon"].values()) + list(res_e[1]["canon"].values())) \
+                    and res_e[0]["canon"] != res_e[1]["canon"]:
+                # (equations compared as polynomials, rate statements as texts: the writer's sorting of species does not matter)
+                chk.violation({"kind": "export-vs-rerender", "path": "export"},
+                              "the equations and rate statements `Network.export` itself wrote differ from the ones `naunet render` "
+                              "regenerates in the exported project (same reactions.naunet, same naunet_config.toml)", input=show,
+                              files=[f for f in res_e[0]["canon"] if res_e[0]["canon"].get(f) != res_e[1]["canon"].get(f)])
             badf = [f for f in want if got[f] != want[f] and f not in ("binding", "yield", "replacement")]
             if badf:
                 chk.violation({"kind": "config-field-differs", "fields": badf, "path": "export"},
